@@ -29,6 +29,7 @@ import (
 	"testing"
 	"time"
 
+	"github.com/pquerna/otp/totp"
 	"golang.org/x/crypto/openpgp"
 	"golang.org/x/crypto/openpgp/armor"
 	"golang.org/x/crypto/ssh"
@@ -107,7 +108,41 @@ func TestVerif_C19S(t *testing.T) {
 	srv.EnableHTTP2 = true
 	srv.StartTLS()
 	defer srv.Close()
-	info := map[string]string{"url": srv.URL, "ca_pem": string(pem.EncodeToMemory(&pem.Block{Type: "CERTIFICATE", Bytes: srv.Certificate().Raw})),
+	// a second daemon whose certificates need a one-time code (local TOTP)
+	envT := verifSetup(t, func(c *AppConfigFile, dir string) {
+		c.Base.AllowedAuthBackendsForWebUI = []string{"password"}
+		c.Base.AllowedAuthBackendsForCerts = []string{"TOTP"}
+		c.Base.EnableLocalTOTP = true
+	})
+	totpSecrets := map[string]string{}
+	for _, u := range []string{"alice", "bob", "admin"} {
+		key, err := totp.Generate(totp.GenerateOpts{Issuer: "keymaster.example", AccountName: u})
+		if err != nil {
+			t.Fatal(err)
+		}
+		enc, err := envT.state.encryptWithPublicKeys([]byte(key.Secret()))
+		if err != nil {
+			t.Fatal(err)
+		}
+		profile, _, _, err := envT.state.LoadUserProfile(u)
+		if err != nil {
+			t.Fatal(err)
+		}
+		profile.TOTPAuthData[time.Now().Unix()] = &totpAuthData{Enabled: true, CreatedAt: time.Now(), Name: "verif", EncryptedSecret: enc}
+		profile.UserHasRegistered2ndFactor = true
+		if err := envT.state.SaveUserProfile(u, profile); err != nil {
+			t.Fatal(err)
+		}
+		totpSecrets[u] = key.Secret()
+	}
+	srvT := httptest.NewUnstartedServer(envT.handler)
+	srvT.EnableHTTP2 = true
+	srvT.StartTLS()
+	defer srvT.Close()
+	secretsJSON, _ := json.Marshal(totpSecrets)
+	info := map[string]string{"totp_url": srvT.URL, "totp_ca_pem": string(pem.EncodeToMemory(&pem.Block{Type: "CERTIFICATE", Bytes: srvT.Certificate().Raw})),
+		"totp_secrets": string(secretsJSON), "passwords": `{"alice":"alicepw","bob":"bobpw","admin":"adminpw"}`,
+		"url": srv.URL, "ca_pem": string(pem.EncodeToMemory(&pem.Block{Type: "CERTIFICATE", Bytes: srv.Certificate().Raw})),
 		"user": "alice", "password": "alicepw"}
 	b, _ := json.Marshal(info)
 	tmp := filepath.Join(verifOut(), "c19_server.json.tmp")
